@@ -56,6 +56,10 @@ HOSTILE_CONTENT = BOMS + [b + b'\n' for b in BOMS] + \
     b'\n\x00', b'\x00\n\x00', b'\n\x00\x00\x00', b'\x25', b'{}\x25',
     b'\r\n\r\n', b'\n\n', b'a', b'a\r', b'\xef\xbb\xbf\xef\xbb\xbf\n',
     b'#diffx: version=1.0\n', b'#.change:\n',
+    # deeply nested JSON
+    b'[' * 5000 + b']' * 5000 + b'\n',
+    b'{"a":' * 3000 + b'1' + b'}' * 3000 + b'\n',
+    b'[' * 200000 + b'\n',
 ]
 
 
